@@ -4,6 +4,7 @@ import (
 	"fmt"
 	"go/types"
 	"os"
+	"regexp"
 	"sort"
 	"strings"
 
@@ -784,6 +785,11 @@ func (ex *Exec) frameCheck(st *State, env *Env, fc *FuncContract) {
 		if cur.S == old.S || whole[name] {
 			continue
 		}
+		if strings.HasPrefix(cur.Sort, "(Array") && onlyFreshStores(cur.S, old.S) {
+			// every write went to an object allocated during this call: nothing that existed
+			// before has changed (decided syntactically, no query)
+			continue
+		}
 		var goal Term
 		if !strings.HasPrefix(cur.Sort, "(Array") {
 			goal = Eq(cur, old)
@@ -912,4 +918,31 @@ func topConjuncts(s string) []string {
 	}
 	walk(s)
 	return out
+}
+
+var allocOnlySymRe = regexp.MustCompile(`^(arr|box|chan|map|ref)![0-9]+$`)
+
+// onlyFreshStores: cur is old with stores at allocation results only (symbols created by
+// freshRef, each asserted greater than the watermark at its allocation, hence than top0).
+func onlyFreshStores(cur, old string) bool {
+	if !strings.HasPrefix(cur, "(store ") {
+		return false
+	}
+	es := parseSExps(cur)
+	if len(es) != 1 {
+		return false
+	}
+	e := es[0]
+	for {
+		if e.String() == old {
+			return true
+		}
+		if e.IsAtom() || e.head() != "store" || len(e.List) != 4 {
+			return false
+		}
+		if !e.List[2].IsAtom() || !allocOnlySymRe.MatchString(e.List[2].Atom) {
+			return false
+		}
+		e = e.List[1]
+	}
 }
